@@ -291,7 +291,9 @@ func (p *Parser) parseBetweenExpression(left Expression) Expression {
 }
 
 func (p *Parser) parseInExpression(left Expression) Expression {
-	p.nextToken()
+	if !p.expectPeek(LPAREN) {
+		return nil
+	}
 
 	return &InExpression{
 		Token: p.curToken,
